@@ -90,6 +90,7 @@ def run(ctx, facts):
                           "that each position keeps the l smallest values (array invariant of the insertion sort)"]
     s = C11.seed_rule(ctx, facts)
     ctx.floor("C10 seeding sites", s, 1)
+    C11.absorb_rule(ctx, facts)
     C11.occurrence_rule(ctx, facts)
     m = seedmix(ctx, facts, [POM + "hash_set"])
     ctx.floor("C10 generator constructions in hash_set", m, 1)
